@@ -219,6 +219,13 @@ def evaluate(case):
         ok, why = kd.elem_equal(got_, exp_, 1e-12 if d >= 6 else None)
         if not ok:
             raise Violation("two-sided-inverse", "inv", f"scalar multivector: {what}: {why}")
+    # ... and must not have touched the algebra's shared unit blade
+    try:
+        unit = kd.to_dict(alg.blades["e"], op="blades")
+    except Exception as e:
+        raise Violation("two-sided-inverse", "inv", f"alg.blades['e'] after 2.inv() raised {type(e).__name__}: {e}", exc=type(e).__name__)
+    if not (set(unit) == {0} and unit[0] == 1):
+        raise Violation("two-sided-inverse", "inv", f"after 2.inv() and 6/2 the unit blade alg.blades['e'] reads {unit!r} instead of 1 (signature {ref.sig})")
     elem = _build_elem(case["x"], ref, Rr)
     keys, vals = _layout(elem, case, d)
     floatmode = d >= 6
@@ -302,6 +309,39 @@ def evaluate(case):
         ok, why = kd.elem_equal(gi, rinv, tol)
         if not ok:
             raise Violation("two-sided-inverse", "inv", f"x.inv() differs from the exact inverse: {why}", observed=kd.show(gi), expected=kd.show(rinv))
+    # the empty multivector as numerator: 0 / x = 0 * x.inv() = 0
+    for what, fn in (("empty / x", lambda: kd.mk(alg, [], []) / x), ("alg.div(empty, x)", lambda: alg.div(kd.mk(alg, [], []), x))):
+        s0, q0 = kcall(fn, what)
+        if s0 != "ok":
+            raise Violation("div=a*inv(b)", "div", f"{what} raised {type(q0).__name__}: {q0} although x.inv() returned", exc=type(q0).__name__)
+        ok, why = kd.elem_equal(kd.to_dict(q0, op="div"), {}, tol)
+        if not ok:
+            raise Violation("div=a*inv(b)", "div", f"{what} (numerator stores no blade) != 0 = empty * x.inv(): {why}", observed=kd.show(kd.to_dict(q0)))
+    counters["checked:empty-numerator"] = 1
+    # chains inside a symbolically registered function: the operand of the second inverse has rational-function coefficients
+    if mode == "frac" and d <= 2 and len(keys) <= 3:
+        def f_invinv(a):
+            return a.inv().inv()
+
+        def f_yyinv(a):
+            y = a.inv()
+            return y * y.inv()
+
+        def f_div(a):
+            return 3 / a.inv()
+        for fn, exp_, what in ((f_invinv, clean(dx), "x.inv().inv() == x"), (f_yyinv, one, "y*y.inv() == 1 for y = x.inv()"),
+                               (f_div, {k: 3 * v for k, v in clean(dx).items()}, "3 / x.inv() == 3*x")):
+            s5, q5 = kcall(lambda: alg.register(fn, symbolic=True)(x), what)
+            if s5 == "zde":
+                counters["chain:zde"] = counters.get("chain:zde", 0) + 1
+                continue
+            if s5 != "ok":
+                raise Violation("two-sided-inverse", "inv", f"register(symbolic=True): {what} raised {type(q5).__name__}: {q5}", exc=type(q5).__name__)
+            ok, why = kd.elem_equal(kd.to_dict(q5, op="inv"), exp_, tol)
+            if not ok:
+                raise Violation("two-sided-inverse", "inv", f"inside alg.register(symbolic=True): {what} fails for x = {kd.show(dx)} in signature {ref.sig}: {why}",
+                                observed=kd.show(kd.to_dict(q5)))
+            counters["checked:symbolic-chain"] = counters.get("checked:symbolic-chain", 0) + 1
     # derived forms
     if kind == "div":
         ka, va = case["num"]["keys"], [frac(v) for v in case["num"]["vals"]]
